@@ -115,7 +115,7 @@ func tokensOf(list *[]retained, rule string) {
 }
 
 type c12Facts struct {
-	helpers int
+	helpers   int
 	followUp  bool // a call with RM / per-call fn / failing result directly followed by a call on the same type without them
 	failing   int
 	withRM    int
